@@ -2,7 +2,8 @@
     The same function is extracted to OCaml (ocaml/modelrun) and can be evaluated inside Coq. *)
 From Coq Require Import Strings.String Strings.Byte.
 From Coq Require Import List Arith NArith ZArith Bool.
-From PV Require Import Base.Bytes Base.Outcome Base.KV Compkey.Model Aol.Model Bank.Model Did.Model Chain.Model Driver.Tok.
+From PV Require Import Base.Bytes Base.Outcome Base.KV Compkey.Model Aol.Model Aol.Query Bank.Model Did.Model Chain.Model Driver.Tok.
+From PV Require Pagination.Model.
 Import ListNotations.
 
 Record pending := {
@@ -410,6 +411,37 @@ Definition q_line (r : outcome aol_val) : bytes :=
 Definition dump_entry (e : bytes * aol_val) : bytes :=
   to_hex (fst e) ++ b "=" ++ join_with ":"%byte (aol_val_toks (snd e)).
 
+Definition optkey_of_tok (t : tok) : option (option bytes) :=
+  if tok_is t "nil" then Some None
+  else match bytes_of_tok t with Some k => Some (Some k) | None => None end.
+Definition bool_of_tok (t : tok) : option bool :=
+  if tok_is t "1" then Some true else if tok_is t "0" then Some false else None.
+
+Definition page_req_of_toks (ts : list tok) : option (option Pagination.Model.page_req) :=
+  match ts with
+  | [t] => if tok_is t "nopage" then Some None else None
+  | [k; off; lim; ct; rv] =>
+      match optkey_of_tok k, parse_dec off, parse_dec lim, bool_of_tok ct, bool_of_tok rv with
+      | Some k', Some off', Some lim', Some ct', Some rv' =>
+          Some (Some (Pagination.Model.mk_page_req k' off' lim' ct' rv'))
+      | _, _, _, _, _ => None
+      end
+  | _ => None
+  end.
+
+Definition page_line (r : outcome (list bytes * Pagination.Model.page_res)) : bytes :=
+  match r with
+  | Ok (items, pr) =>
+      join_toks [b "Q"; b "ok"; b "L" ++ cat "," (map tok_of_bytes items);
+                 match Pagination.Model.pg_next_key pr with
+                 | Some (c :: k) => to_hex (c :: k)
+                 | _ => b "nil"
+                 end;
+                 print_dec (Pagination.Model.pg_total pr)]
+  | Err _ code => join_toks [b "Q"; b "err"; print_dec code]
+  | Panic => b "Q panic"
+  end.
+
 Definition q_cmd (st : dstate) (ts : list tok) : list bytes :=
   let e := env_of st in
   match ts with
@@ -425,7 +457,23 @@ Definition q_cmd (st : dstate) (ts : list tok) : list bytes :=
         | None => bad
         end
       else bad
-  | kind :: args =>
+  | kind :: o :: rest =>
+      if tok_is kind "aol.Topics" then
+        match bytes_of_tok o, page_req_of_toks rest with
+        | Some o', Some req => [page_line (q_topics (e_unbech e) (c_aol (d_chain st)) o' req)]
+        | _, _ => bad
+        end
+      else if tok_is kind "aol.Writers" then
+        match rest with
+        | t :: rest' =>
+            match bytes_of_tok o, bytes_of_tok t, page_req_of_toks rest' with
+            | Some o', Some t', Some req => [page_line (q_writers (e_unbech e) (bech_of st) (c_aol (d_chain st)) o' t' req)]
+            | _, _, _ => bad
+            end
+        | [] => bad
+        end
+      else
+      let args := o :: rest in
       match map_opt bytes_of_tok (firstn 2 args), skipn 2 args with
       | Some [o; t], rest =>
           if tok_is kind "aol.Record" then
@@ -445,7 +493,7 @@ Definition q_cmd (st : dstate) (ts : list tok) : list bytes :=
           else bad
       | _, _ => bad
       end
-  | [] => bad
+  | _ => bad
   end.
 
 Definition chain_cmd (st : dstate) (cmd : tok) (args : list tok) : option (dstate * list bytes) :=
@@ -530,6 +578,39 @@ Definition chain_cmd (st : dstate) (cmd : tok) (args : list tok) : option (dstat
     end
   else if tok_is cmd "ENDBLOCK" then
     Some (upd_chain st (end_block (env_of st) (d_chain st)), [])
+  else if tok_is cmd "G" then
+    (* genesis map entries: G aol.<kind> <key string> <fields> *)
+    match args with
+    | kind :: ks :: fields =>
+        let entry : option (key_kind * aol_val) :=
+          if tok_is kind "aol.owner" then
+            match fields with [n] => match parse_dec n with Some n' => Some (KOwner, VOwner n') | None => None end | _ => None end
+          else if tok_is kind "aol.topic" then
+            match fields with
+            | [d; nr; nw] => match bytes_of_tok d, parse_dec nr, parse_dec nw with
+                             | Some d', Some nr', Some nw' => Some (KTopic, VTopic d' nr' nw') | _, _, _ => None end
+            | _ => None end
+          else if tok_is kind "aol.writer" then
+            match fields with
+            | [m; d; t] => match bytes_of_tok m, bytes_of_tok d, z_of_tok t with
+                           | Some m', Some d', Some t' => Some (KWriter, VWriter m' d' t') | _, _, _ => None end
+            | _ => None end
+          else if tok_is kind "aol.record" then
+            match fields with
+            | [k; v; t; w] => match bytes_of_tok k, bytes_of_tok v, z_of_tok t, bytes_of_tok w with
+                              | Some k', Some v', Some t', Some w' => Some (KRecord, VRecord k' v' t' w') | _, _, _, _ => None end
+            | _ => None end
+          else None in
+        match entry, bytes_of_tok ks with
+        | Some (kk, v), Some ks' =>
+            match init_kind (unbech_of st) kk [(ks', v)] (c_aol (d_chain st)) with
+            | Ok a => Some (upd_chain st (with_aol (d_chain st) a), [])
+            | _ => Some (st, [b "G panic"])
+            end
+        | _, _ => Some (st, bad)
+        end
+    | _ => Some (st, bad)
+    end
   else if tok_is cmd "Q" then Some (st, q_cmd st args)
   else if tok_is cmd "DUMP" then
     match args with
